@@ -12,8 +12,8 @@ func init() { runners["C09"] = runC09 }
 
 func settleGoroutines(base int) int {
 	n := runtime.NumGoroutine()
-	for i := 0; i < 300 && n > base; i++ {
-		time.Sleep(2 * time.Millisecond)
+	for i := 0; i < 400 && n > base; i++ {
+		time.Sleep(10 * time.Millisecond)
 		n = runtime.NumGoroutine()
 	}
 	return n
